@@ -502,6 +502,20 @@ class C19(RebuildProp):
                     f["cands"] = [{"cls": "intact", "search": 0, "depth": 0}]
                 out.append({"version": v, "P": B, "tree": t, "meta_src": "ref", "hostile": True, "type_hostile": k,
                             "nsearch": 1, "unrelated": 1, "clauses": list(self.clauses)})
+        # benign metafiles, hostile DESTINATION: symbolic links that already exist inside it and lead outside - at the
+        # position of a file (dangling / to a smaller file), of a directory on the way, of the top directory
+        for v in (1, 2, 3):
+            for kind in ("dangling", "small", "dir", "top"):
+                for sh, sizes in (("D2n", (B + 5, 2 * B)), ("D2", (B + 5, 2 * B)), ("S1", (2 * B + 1,))):
+                    if sh == "S1" and kind in ("dir", "top"):
+                        continue
+                    t = mk_tree(sh, sizes)
+                    for fi, f in enumerate(t["files"]):
+                        f["cands"] = [{"cls": "intact", "search": 0, "depth": fi}]
+                    links = [{"file": fi, "kind": kind} for fi in range(len(sizes))] if kind in ("dangling", "small") else [{"file": 0, "kind": kind}]
+                    out.append({"version": v, "P": B, "tree": t, "meta_src": ("ref", "own")[len(out) % 2], "hostile": True,
+                                "dest_links": links, "nsearch": 1, "unrelated": 1, "clauses": list(self.clauses),
+                                "route": ("lib", "cli")[(len(out) // 2) % 2]})
         # benign controls: ordinary names must keep working (copy happens inside the destination)
         for v in (1, 2, 3):
             t = mk_tree("D2", (B + 5, 2 * B))
